@@ -639,6 +639,8 @@ type entry struct {
 	Unusual    bool
 	Need       need
 	Combinable bool
+	Repeat     int                          // run the faulty variant this many times (map-order dependent behaviour)
+	Prepare    func(t *rapid.T, b *builder) // applied BEFORE the baseline snapshot (valid set-up the fault needs)
 	Apply      func(t *rapid.T, b *builder)
 }
 
@@ -1264,6 +1266,51 @@ func buildCatalogue() []*entry {
 			b.note("root _anchors map (%s)", kind)
 		}})
 	}
+	// -- go.mod without a module directive (syntactically valid): as a NESTED go.mod in the output
+	// directory of the target (mocks/ sub-package) and as the module's own go.mod. Never a crash.
+	for _, kind := range []string{"empty", "comment-only", "go-only"} {
+		for _, place := range []string{"nested-in-output-dir", "module-root"} {
+			kind, place := kind, place
+			nd := need{}
+			if place == "nested-in-output-dir" {
+				nd.layout = 2
+			}
+			add(&entry{ID: "u-gomod/no-module-directive/" + kind + "/" + place, Level: "file", Unusual: true, Need: nd, Apply: func(t *rapid.T, b *builder) {
+				text := map[string]string{"empty": "", "comment-only": "// placeholder so that tools treat this directory as a separate module\n", "go-only": "go 1.23\n"}[kind]
+				if place == "module-root" {
+					b.files["go.mod"] = text
+				} else {
+					b.files[b.tp().Dir+"/mocks/go.mod"] = text
+				}
+				b.note("go.mod without a module directive (%s) at %s", kind, place)
+			}})
+		}
+	}
+
+	// -- custom (file://) template whose schema cannot be retrieved for a strict output file, while a
+	// sibling output file sharing template + schema URL is lenient (require-template-schema-exists: false)
+	customTemplate := func(t *rapid.T, b *builder) int {
+		other := (b.tgt + 1 + rapid.IntRange(0, len(b.ctx.Pkgs)-2).Draw(t, "lenient-pkg")) % len(b.ctx.Pkgs)
+		b.files["tmpl/custom.templ"] = "// Code generated for tests. DO NOT EDIT.\n\npackage {{.PkgName}}\n{{range .Interfaces}}\ntype {{.StructName}} struct{}\n{{end}}"
+		b.files["tmpl/custom.templ.schema.json"] = "{\"$schema\": \"http://json-schema.org/draft-07/schema#\", \"type\": \"object\"}\n"
+		for _, i := range []int{b.tgt, other} {
+			b.pkgCfg(i).Set("template", "file://./tmpl/custom.templ")
+			stripPkg(b.pkgNode(i), "template", false)
+		}
+		return other
+	}
+	{
+		var other int
+		add(&entry{ID: "custom-template-schema-missing/strict+lenient-sibling", Level: "package", MustFail: true, Repeat: 5,
+			Prepare: func(t *rapid.T, b *builder) { other = customTemplate(t, b) },
+			Apply: func(t *rapid.T, b *builder) {
+				delete(b.files, "tmpl/custom.templ.schema.json")
+				b.pkgCfg(other).Set("require-template-schema-exists", false)
+				stripPkg(b.pkgNode(other), "require-template-schema-exists", false)
+				b.note("file:// template shared by %s (strict) and %s (require-template-schema-exists: false); the schema file does not exist", b.pkgPath(b.tgt), b.pkgPath(other))
+			}})
+	}
+
 	add(&entry{ID: "u-plain", Level: "root", Unusual: false, Apply: func(t *rapid.T, b *builder) {
 		b.note("no fault (plain valid configuration)")
 	}})
@@ -1296,6 +1343,7 @@ type Case struct {
 	BaseExpect []string          `json:"base_expect"`
 	Fault      Variant           `json:"fault"`
 	Expect     []string          `json:"expect"`
+	Repeat     int               `json:"repeat,omitempty"`
 }
 
 func (b *builder) snapshot() (Variant, []string) {
@@ -1335,10 +1383,13 @@ func genFor(t *rapid.T, idx int) Case {
 	}
 	ctx, tgt := genCtx(t, e.Need)
 	b := newBuilder(t, ctx, tgt)
+	if e.Prepare != nil {
+		e.Prepare(t, b)
+	}
 	base, baseExpect := b.snapshot()
 
 	e.Apply(t, b)
-	c := Case{Entry: e.key(), MustFail: e.MustFail, Unusual: e.Unusual}
+	c := Case{Entry: e.key(), MustFail: e.MustFail, Unusual: e.Unusual, Repeat: e.Repeat}
 	// A second fault is only added when the first one left the structure of the tree intact: the
 	// combinable faults address packages.<p>.config / .interfaces and would silently REBUILD a node
 	// that the first fault had replaced by a list (undoing the first fault).
